@@ -700,6 +700,29 @@ ERRORS += [
     ("out-of-scope-nonconst-in-gate", "gate gs x { rx(iv) x; } gs q[0];"),
     ("readonly-arg-assign", "def os11(qubit a, int[8] n) { cc = n; } os11(q[0], 1);"),
 ]
+AR3 = "array[int[8], 3] ar = {1, 2, 3}; "
+ERRORS += [
+    ("array-index-range", AR3 + "rx(ar[3]) q[0];"), ("array-index-range-neg", AR3 + "rx(ar[-1]) q[0];"),
+    ("array-slice-end-range", AR3 + "array[int[8], 3] br; br[0:1] = ar[1:3];"),
+    ("array-slice-start-range", AR3 + "array[int[8], 3] br; br[0:1] = ar[3:4];"),
+    ("array-slice-end-range-2d", "array[int[8], 2, 3] zr = {{1, 2, 3}, {4, 5, 6}}; array[int[8], 3] br; br[0:2] = zr[1, 0:5];"),
+    ("array-slice-write-range", AR3 + "ar[1:3] = 5;"), ("array-index-write-range", AR3 + "ar[3] = 5;"),
+    ("array-init-view-range", AR3 + "array[int[8], 2] vr = ar[1:3];"),
+    ("array-literal-shape", "array[int[8], 3] sr = {1, 2};"), ("array-literal-shape-2d", "array[int[8], 2, 2] sr = {{1, 2}, {3, 4}, {5, 6}};"),
+    ("array-element-type-range", "array[int[8], 2] er = {1, 300};"), ("array-element-assign-range", AR3 + "ar[0] = 300;"),
+    ("array-uninitialised-element", "array[int[8], 3] ur; rx(ur[1]) q[0];"),
+    ("array-index-count", "array[int[8], 2, 2] mr = {{1, 2}, {3, 4}}; rx(mr[0, 1, 0]) q[0];"),
+    ("array-too-many-dims", "array[int[8], 1, 1, 1, 1, 1, 1, 1, 1] tr;"), ("array-zero-dim", "array[int[8], 0] zr;"),
+    ("array-sizeof-dim-range", AR3 + "int[8] sz = sizeof(ar, 1);"),
+    ("array-slice-shape-mismatch", AR3 + "array[int[8], 3] br; br[0:2] = ar[0:1];"),
+    ("array-ref-readonly-write", "def ra(readonly array[int[8], #dim=1] xa) { xa[0] = 5; } " + AR3 + "ra(ar);"),
+    ("array-ref-type-mismatch", "def rb(readonly array[int[16], #dim=1] xa) { } " + AR3 + "rb(ar);"),
+    ("array-ref-dim-mismatch", "def rc(readonly array[int[8], #dim=2] xa) { } " + AR3 + "rc(ar);"),
+    ("array-ref-slice-range", "def rd(mutable array[int[8], #dim=1] xa) { xa[0] = 1; } " + AR3 + "rd(ar[1:3]);"),
+    ("array-ref-not-array", "def re(readonly array[int[8], #dim=1] xa) { } re(iv);"),
+    ("array-ref-size-exceeds", "def rf(readonly array[int[8], 5] xa) { } " + AR3 + "rf(ar);"),
+    ("array-ref-index-range-in-body", "def rg(readonly array[int[8], 2] xa) -> int[8] { return xa[2]; } " + AR3 + "int[8] rr = rg(ar);"),
+]
 TOP_ONLY = {"gphase-qubits-global", "redeclared-var"}
 
 CONTEXTS = [
@@ -887,4 +910,116 @@ def repeated_call_cases():
         out.append(H3 + pre + "\n".join(calls[i].replace("r1", "r%d" % k) for k, i in enumerate(seq)) + "\n")
     out.append(H3 + pre + "for int i in [0:2] { inv @ g(i) q[0], q[1]; g(i) q[1], q[2]; }\n")
     out.append(H3 + pre + "for int i in [0:1] { int[8] t = f(q[0:2], i); rx(t) q[2]; }\n")
+    return out
+
+
+def array_cases(rnd, n):
+    """classical arrays: declarations with literals, element / slice reads and writes, sizeof, loops,
+    arrays passed by reference (whole and sliced views, readonly and mutable) -- observed through gate
+    angles and qubit indices (C07, C08); a share of the indices and values is out of range on purpose"""
+    out = []
+    tys = [("int[8]", "int"), ("int[16]", "int"), ("uint[4]", "uint"), ("float[64]", "float"), ("float[32]", "float"), ("bool", "bool")]
+
+    def val(kind, bad=False):
+        if kind == "int":
+            return str(rnd.choice([300, -200]) if bad else rnd.randint(-5, 9))
+        if kind == "uint":
+            return str(-3 if bad else rnd.randint(0, 15))
+        if kind == "float":
+            return rnd.choice(["0.5", "1.25", "-2.75", "3", "0.1", "2.5e-1"])
+        return rnd.choice(["true", "false"])
+
+    def lit(kind, dims, bad=False):
+        if len(dims) == 1:
+            return "{" + ", ".join(val(kind, bad and rnd.random() < 0.5) for _ in range(dims[0])) + "}"
+        return "{" + ", ".join(lit(kind, dims[1:], bad) for _ in range(dims[0])) + "}"
+
+    def idx(d, p_bad):
+        if rnd.random() < p_bad:
+            return rnd.choice([d, d + 1, -1])
+        return rnd.randrange(d)
+
+    def rng(d, p_bad):
+        a = idx(d, p_bad)
+        b = idx(d, p_bad) if rnd.random() < 0.7 else d - 1
+        bad = rnd.random() < p_bad
+        if rnd.random() < 0.25:
+            st = rnd.choice([1, 2, -1])
+            if not bad and ((st > 0 and a > b) or (st < 0 and a < b)):
+                a, b = b, a
+            return "%d:%d:%d" % (a, st, b), a, b, st
+        if not bad and a > b:
+            a, b = b, a
+        return "%d:%d" % (a, b), a, b, 1
+
+    for _ in range(n):
+        p_bad = 0.0 if rnd.random() < 0.75 else 0.15
+        ty, kind = rnd.choice(tys)
+        dims = [rnd.randint(1, 4)] if rnd.random() < 0.65 else [rnd.randint(1, 3), rnd.randint(1, 3)]
+        L = ["qubit[4] q;", "int[8] k = %d;" % rnd.randint(0, 2)]
+        L.append("array[%s, %s] a = %s;" % (ty, ", ".join(map(str, dims)), lit(kind, dims, bad=(p_bad > 0 and rnd.random() < 0.2))))
+        if rnd.random() < 0.3:
+            L.append("array[%s, %s] b;" % (ty, ", ".join(map(str, dims))))
+
+        def elem(name="a", p=p_bad):
+            if len(dims) == 1:
+                return "%s[%s]" % (name, rnd.choice(["k", str(idx(dims[0], p))]) if dims[0] > 2 else idx(dims[0], p))
+            if rnd.random() < 0.5:
+                return "%s[%d][%d]" % (name, idx(dims[0], p), idx(dims[1], p))
+            return "%s[%d, %d]" % (name, idx(dims[0], p), idx(dims[1], p))
+
+        for _k in range(rnd.randint(2, 6)):
+            c = rnd.random()
+            if c < 0.3:
+                L.append("rx(%s) q[%d];" % (elem(), rnd.randrange(4)))
+            elif c < 0.45:
+                L.append("%s %s %s;" % (elem(), rnd.choice(["=", "=", "="] if kind in ("bool",) else ["=", "=", "="]), val(kind, p_bad > 0 and rnd.random() < 0.3)))
+            elif c < 0.55 and kind in ("int", "uint"):
+                L.append("%s = %s + %s;" % (elem(), elem(), val(kind)))
+            elif c < 0.65:
+                r1 = rng(dims[0], p_bad)[0]
+                if len(dims) == 1:
+                    L.append("a[%s] = %s;" % (r1, val(kind)))
+                else:
+                    L.append("a[%s, %d] = %s;" % (r1, idx(dims[1], p_bad), val(kind)))
+            elif c < 0.75 and len(L) > 3 and L[3].startswith("array") and len(dims) == 1:
+                r1, a1, b1, s1 = rng(dims[0], p_bad)
+                r2, a2, b2, s2 = rng(dims[0], p_bad)
+                L.append("b[%s] = a[%s];" % (r1, r2))
+                L.append("rx(%s) q[0];" % elem("b", 0.0))
+            elif c < 0.82:
+                L.append("rx(sizeof(a%s)) q[1];" % rnd.choice(["", ", 0", ", %d" % (len(dims) - 1), ", %d" % len(dims)]))
+            elif c < 0.9 and len(dims) == 1:
+                L.append("for int i in [0:%d] { rx(a[i]) q[i %% 4]; %s }" % (dims[0] - 1 + (1 if rnd.random() < p_bad else 0),
+                                                                           "a[i] = %s;" % val(kind) if rnd.random() < 0.5 else ""))
+            elif kind in ("int", "uint"):
+                L.append("x q[%s & 3];" % elem())
+            else:
+                L.append("rx(%s) q[2];" % elem())
+        # by-reference subroutine
+        if rnd.random() < 0.5:
+            acc = rnd.choice(["mutable", "mutable", "readonly"])
+            nd = len(dims)
+            if rnd.random() < 0.5:
+                formal = "%s array[%s, #dim=%d] fa" % (acc, ty, nd if rnd.random() >= p_bad else nd + 1)
+            else:
+                formal = "%s array[%s, %s] fa" % (acc, ty, ", ".join(str(d if rnd.random() >= p_bad else d + 1) for d in dims))
+            body = []
+            z = ", 0" * (nd - 1)
+            if acc == "mutable" or rnd.random() < p_bad:
+                body.append("fa[0%s] = %s;" % (z, val(kind)))
+            body.append("rx(fa[0%s]) fq;" % z)
+            if rnd.random() < 0.5 and dims[0] > 1:
+                body.append("fa[1%s] = fa[0%s];" % (z, z))
+            L.insert(1, "def f(%s, qubit fq) { %s }" % (formal, " ".join(body)))
+            if rnd.random() < 0.5:
+                actual = "a"
+            elif nd == 1:
+                actual = "a[%s]" % rng(dims[0], p_bad)[0]
+            else:
+                actual = "a[%s, %s]" % (rng(dims[0], p_bad)[0], rng(dims[1], p_bad)[0])
+            L.append("f(%s, q[3]);" % actual)
+            for _k in range(2):
+                L.append("rx(%s) q[%d];" % (elem(p=0.0), rnd.randrange(3)))
+        out.append(H3 + "\n".join(L) + "\n")
     return out
